@@ -1,11 +1,10 @@
 (* Unfolding equations of the statement-level interpreter functions, produced mechanically from the text of
-   EvalRestoreSem.v (props/state_common.py: gen_eqs
-   ); each is proved by computation, so it cannot drift from the definition. *)
+   EvalRestoreSem.v (props/state_common.py: gen_eqs); each is proved by computation, so it cannot drift from
+   the definition. *)
 From HyV Require Export State.EvalRestoreSem.
 
 Section Eqs.
 Variables (P : prog) (Orc : oracle) (A : Type) (timeout : A) (stuck : string -> A).
-
 Notation eval_ := (eval P Orc A timeout stuck).
 Notation evals_ := (evals P Orc A timeout stuck).
 Notation evalkw_ := (evalkw P Orc A timeout stuck).
